@@ -69,3 +69,32 @@ Example c20_example :
   results st = [(2, RNothing); (3, RNothing); (1, RValue (Some 7))] /\ executed st = [(1, Owner); (2, Owner)]
   /\ owner_errors st = [2].
 Proof. vm_compute. repeat split. Qed.
+
+(* ---- the tie to the source text --------------------------------------------------------------------
+   gen/GenThreadFn.v is emitted on every run from the Python AST of ThreadsafeProxy.__getattr__, of the
+   wrapper it returns and of the closure the wrapper queues (bellows/thread.py).  The run-time predicates
+   -- callable(attribute) at look-up; iscoroutinefunction(attribute), owner's loop == running loop,
+   owner's loop.is_closed() at call time -- are boolean inputs; the emitted wrapper yields the asyncio
+   calls made in the caller's step, in order, and what is returned.  [action_of] (proofs/ThreadSrc_proofs.v)
+   reads that as an action of the model; the decision taken by the source is [dispatch] on all 16 inputs. *)
+Require Import BV.gen.GenThreadFn BV.proofs.ThreadSrc_proofs.
+Theorem c20_source_decision : forall callable coroutine same_loop closed,
+  py_decision callable coroutine same_loop closed = Some (dispatch callable coroutine same_loop closed).
+Proof. exact src_decision. Qed.
+
+(* from another loop the wrapper never hands back the invocation's own result and never invokes a plain
+   method in the caller's step *)
+Theorem c20_source_never_on_caller : forall coroutine closed,
+  snd (py_func_wrapper coroutine false closed) <> RetCallResult /\
+  (coroutine = false -> ~ In PInvoke (fst (py_func_wrapper coroutine false closed))).
+Proof. exact src_never_on_caller. Qed.
+
+(* the closure queued for a plain method is the owner's step of the model: the owner's loop invokes the
+   method, the caller's result is untouched, a returned value is an error raised in the owner *)
+Theorem c20_source_plain_check : forall st id b q, queue st = (id, false, b) :: q ->
+  py_closure b <> ONotCalled /\
+  executed (pstep st POwnerRuns) = executed st ++ [(id, Owner)] /\
+  results (pstep st POwnerRuns) = results st /\
+  owner_errors (pstep st POwnerRuns) =
+    match py_closure b with OTypeError => owner_errors st ++ [id] | _ => owner_errors st end.
+Proof. exact src_plain_check. Qed.
